@@ -8,6 +8,7 @@ from .. import gen as G
 from .. import universal as U
 from ..exact import Unsupported
 from ..storejudge import decode_store, STORE_OPS
+from .. import reducejudge as RJ
 
 ID = 'C02'
 TECHNIQUE = 'runtime monitoring: universal well-formedness monitor (U1: codes in range, integer code types, n_int, limits, dtype string) on every object produced by random programs of public operations; saturation-side oracle on huge inputs; indexing monitor'
@@ -85,7 +86,8 @@ def make_judges(ctx):
         if ev.op not in STORE_OPS or ev.exc is not None and False:
             return
         try:
-            si = decode_store(ev, allow_raw=True)       # (a raw store gives the code itself: it saturates like a value with n_frac = 0)
+            si = decode_store(ev, allow_raw=True, allow_fxp=True)       # (a raw store gives the code itself: it saturates like a value with n_frac = 0;
+            #                                                              a fixed-point source gives its exact value)
         except Unsupported:
             return
         if si is None or si.is_complex:
@@ -119,7 +121,7 @@ def make_judges(ctx):
         ctx.floor_hit(('saturate', kind, mag))
         if si.raw:
             ctx.floor_hit(('saturate-raw', mag))
-    return [wellformed_judge, saturation_judge, getitem_judge, unary_side_judge]
+    return [wellformed_judge, saturation_judge, getitem_judge, unary_side_judge, RJ.make_judge(ctx, ctx.mon.Fxp, 'side')]
 
 
 def _short(v):
@@ -132,7 +134,8 @@ def _is_float(c):
 
 
 def floors(tier):
-    return [('saturate', 'int', 'huge'), ('saturate', 'float', 'huge'), ('saturate', 'int', 'moderate'), ('saturate', 'float', 'moderate'), ('saturate-raw', 'huge'), ('saturate-raw', 'moderate'), ('element-of-wide-array',), ('partly-inferred-sizes',), ('unary-out-of-range', 's'), ('unary-out-of-range', 'u')]
+    return [('saturate', 'int', 'huge'), ('saturate', 'float', 'huge'), ('saturate', 'int', 'moderate'), ('saturate', 'float', 'moderate'), ('saturate-raw', 'huge'), ('saturate-raw', 'moderate'), ('element-of-wide-array',), ('partly-inferred-sizes',), ('unary-out-of-range', 's'), ('unary-out-of-range', 'u'),
+            ('reduction-into-saturating-target', 'beyond-int64'), ('reduction-into-saturating-target', 'moderate')]
 
 
 # ------------------------------------------------------------------------------------------ workload
@@ -145,6 +148,8 @@ def cases(tier, seed):
         yield {'k': 'sat', 'i': i}
     for j in range(48 if tier == 'quick' else 1200):
         yield {'k': 'wideidx', 'i': j}
+    for j in range(60 if tier == 'quick' else 1500):
+        yield {'k': 'reduce', 'i': j}
     # words of 53..63 bits (reachable as results of operations on core-domain operands): float arrays saturating at limits
     # that are not exact in float64
     for w in range(53, 64):
@@ -236,6 +241,8 @@ def run_case(case, ctx):
     i = case['i']
     if case['k'] == 'wideidx':
         return run_wideidx(case, ctx)
+    if case['k'] == 'reduce':
+        return RJ.workload(Fxp, fm, rng, _try)
     if case['k'] == 'satwide':
         w, s = case['n_word'], case['signed']
         nf = rng.choice([0, 0, 1, w // 2, w])
@@ -288,6 +295,29 @@ def run_case(case, ctx):
             y3 = Fxp(None, s, w, nf, rounding=r)
             _try(lambda: y3.set_val(rawv, raw=True))
             _try(lambda: Fxp([rawv, 0], s, w, nf, rounding=r, raw=True))
+            # (lists / tuples whose elements are all beyond int64: NumPy makes them uint64 arrays, which are not wrapped negative codes)
+            _try(lambda: Fxp([rawv], s, w, nf, rounding=r, raw=True))
+            _try(lambda: y3.set_val((rawv, rawv + (1 if rawv > 0 else -1)), raw=True))
+        # wide fixed-point sources (scalar objects of 64..128 bits, elements of such arrays) whose value is far outside the destination
+        for wsrc in (64, 65, 70, 128):
+            ssrc = wsrc != 64 and rng.random() < 0.5
+            csrc = (2 ** (wsrc - 1) - 1 - rng.randint(0, 9)) if ssrc else (2 ** wsrc - 1 - rng.randint(0, 9))
+            if ssrc and rng.random() < 0.5:
+                csrc = -csrc
+            src = _try(lambda: Fxp(csrc, ssrc, wsrc, 0, raw=True))
+            arr = _try(lambda: Fxp(np.array([csrc, 1], dtype=object), ssrc, wsrc, 0, raw=True))
+            for so in (src, _try(lambda: arr[0])):
+                if so is None:
+                    continue
+                _try(lambda: Fxp(so, s, w, nf, rounding=r))
+                y4 = Fxp(None, s, w, nf, rounding=r)
+                _try(lambda: y4.set_val(so))
+                _try(lambda: y4(so))
+                _try(lambda: Fxp(so, like=y4))
+        # Decimal inputs whose scaled value leaves int64
+        from decimal import Decimal
+        for dv in (Decimal(2 ** 40), Decimal(-(2 ** 41) - 3), Decimal(2 ** 62)):
+            _try(lambda: Fxp(dv, s, w, nf, rounding=r))
         # integers next to the 64-bit limits into an object with an integer bias
         for v2, b2 in ((2 ** 63 - 1, -2), (-2 ** 63, 1), (2 ** 63 - 3, -7), (2 ** 63 + 1, 1)):
             _try(lambda: Fxp(v2, s, w, nf, rounding=r, bias=b2))
